@@ -1223,6 +1223,30 @@ class _Closure:
         self.node, self.env, self.defaults = node, env, defaults
 
 
+def _recursive_methods(cls):
+    """names of the methods of the class that can reach a call of themselves through `self.<m>(…)` / `cls.<m>(…)` calls"""
+    memo = getattr(cls, "_efa_recursive", None)
+    if memo is None:
+        g = {}
+        for m in cls.body:
+            if isinstance(m, ast.FunctionDef):
+                g[m.name] = {c.func.attr for c in ast.walk(m) if isinstance(c, ast.Call) and isinstance(c.func, ast.Attribute)
+                             and isinstance(c.func.value, ast.Name) and c.func.value.id in ("self", "cls")}
+        memo = set()
+        for m in g:
+            seen, todo = set(), list(g[m])
+            while todo:
+                x = todo.pop()
+                if x in seen or x not in g:
+                    continue
+                seen.add(x)
+                todo.extend(g[x])
+            if m in seen:
+                memo.add(m)
+        cls._efa_recursive = memo
+    return memo
+
+
 class _ParenInterp:
     """symbolic run of print_tuple_element on (left, op, right): returns the displayed string with <L>/<R> placeholders.
     A small concrete evaluator: strings, tuples, lists, dicts, closures (lambdas / local defs / module-level tables built
@@ -1260,6 +1284,12 @@ class _ParenInterp:
         except _Ret as r:
             return r.v
         return None
+
+    def _try(self, e):
+        try:
+            return self.ev(e)
+        except _Undecided:
+            return None
 
     def block(self, stmts):
         for s in stmts:
@@ -1446,7 +1476,22 @@ class _ParenInterp:
             for st in self.cls.body:
                 if isinstance(st, ast.Assign) and any(isinstance(t, ast.Name) and t.id == e.attr for t in st.targets):
                     return self.ev(st.value)
+            for st in self.cls.body:
+                # a method of the class handed over as a value (a leaf renderer chosen once)
+                if isinstance(st, ast.FunctionDef) and st.name == e.attr:
+                    return ("method", st)
             raise _Undecided(f"attribute self.{e.attr}")
+        if isinstance(e, ast.Call) and isinstance(e.func, ast.Attribute) and isinstance(e.func.value, ast.Name) \
+                and e.func.value.id in ("self", "cls") and isinstance(self.cls, ast.ClassDef) \
+                and e.func.attr != self.fn.name and e.args and (
+                    e.func.attr in getattr(self, "stack", ()) or e.func.attr in _recursive_methods(self.cls)) \
+                and isinstance(self._try(e.args[0]), _Elem):
+            # the rendering recursion, wherever it sits (a helper that calls itself on an operand, directly or through
+            # another helper): a placeholder for the operand
+            x = self.ev(e.args[0])
+            if isinstance(x, _Elem):
+                return "<L>" if x.side == "left" else "<R>"
+            raise _Undecided("recursive call")
         if isinstance(e, ast.Call) and isinstance(e.func, ast.Attribute) and isinstance(e.func.value, ast.Name) \
                 and e.func.value.id in ("self", "cls") and isinstance(self.cls, ast.ClassDef) \
                 and e.func.attr != self.fn.name:
@@ -1464,6 +1509,7 @@ class _ParenInterp:
                 for k in e.keywords:
                     sub.env[k.arg] = self.ev(k.value)
                 sub.fn = self.fn
+                sub.stack = list(getattr(self, "stack", ())) + [g.name]
                 try:
                     sub.block([b for b in g.body if not (isinstance(b, ast.Expr) and isinstance(b.value, ast.Constant))])
                 except _Ret as r:
@@ -1567,6 +1613,11 @@ def r_paren(E):
                                 "operand's own operator) that needs parentheses")
     rel, fn = pm.find_function(EB, "ExplainableObject.print_tuple_element")
     mod_tree = next((t for m, (r, t, _) in pm.modules.items() if r == rel), None)
+    raw_tree = next((t for m, (r, t) in pm.raw_modules.items() if r == rel), None)
+    raw_cls = next((c for c in (raw_tree.body if raw_tree is not None else []) if isinstance(c, ast.ClassDef)
+                    and c.name == "ExplainableObject"), None)
+    raw_fn = next((m for m in (raw_cls.body if raw_cls is not None else []) if isinstance(m, ast.FunctionDef)
+                   and m.name == "print_tuple_element"), None)
     for (op, side), need in sorted(NEEDS.items()):
         for child in sorted(need):
             res.instances += 1
@@ -1575,8 +1626,15 @@ def r_paren(E):
             try:
                 shown = _ParenInterp(fn, op, left, right, mod_tree, class_node=getattr(fn, "_parent", None)).run()
             except _Undecided as u:
-                res.undecided.append(f"print_tuple_element: cannot evaluate symbolically ({u})")
-                continue
+                # the function as written (helpers not inlined: a rendering recursion that goes through helpers is cut
+                # at the helper call) is an equally faithful reading
+                try:
+                    if raw_fn is None:
+                        raise u
+                    shown = _ParenInterp(raw_fn, op, left, right, raw_tree, class_node=getattr(raw_fn, "_parent", None)).run()
+                except _Undecided:
+                    res.undecided.append(f"print_tuple_element: cannot evaluate symbolically ({u})")
+                    continue
             ph = "<L>" if side == "left" else "<R>"
             if not isinstance(shown, str) or ph not in shown:
                 res.undecided.append(f"print_tuple_element: unexpected result {str(shown)[:40]!r} for operator {op!r}")
